@@ -555,7 +555,29 @@ func vKnown05(svcs []vService, conflict string) {
 			declaring++
 		}
 	}
-	verifKnown("C05-three-services-partial-overlap", declaring >= 3 && conflict == "shared type neither identical nor disjoint")
+	// three or more declarations of a plain type: the merger compares each further service with the
+	// ACCUMULATED type, so sets that are pairwise identical-or-disjoint ({f1},{f2},{f1}) still clash
+	overlapSome, differSome := false, false
+	for i := range svcs {
+		for j := i + 1; j < len(svcs); j++ {
+			a, b := svcs[i].t, svcs[j].t
+			if (a.kind != "object" && a.kind != "input") || a.kind != b.kind || a.node || b.node {
+				continue
+			}
+			na, nb := vFieldNames(a.fields), vFieldNames(b.fields)
+			if !vSameStrings(na, nb) {
+				differSome = true
+			}
+			for _, x := range na {
+				for _, y := range nb {
+					if x == y {
+						overlapSome = true
+					}
+				}
+			}
+		}
+	}
+	verifKnown("C05-three-services-partial-overlap", declaring >= 3 && (conflict == "shared type neither identical nor disjoint" || (overlapSome && differSome)))
 }
 
 func vKnown03(svcs []vService) {
